@@ -69,7 +69,7 @@ def decode_op(t):
 
 
 def strategy():
-    step = st.integers(0, 6 * 256 * 11 * 3 - 1).map(decode_step)
+    step = worldops.packed(6 * 256 * 11 * 3).map(decode_step)
     op = st.tuples(st.integers(0, 14), st.integers(0, 15)).map(decode_op)
     return st.fixed_dictionaries({
         'scripts': st.lists(st.lists(step, min_size=1, max_size=5), min_size=1, max_size=4),
